@@ -51,7 +51,25 @@ theorem number_indices_eigen (tol : Rat) (n k : Nat) (htol : GQ.isSmall tol 1 = 
     simp only [natMul, GQ.one_re, Rat.mul_one] at this
     exact_mod_cast this
 
-/-! ## jw_sz_indices (fixed particle number)
+/-- Matrix level (`restrict_is_projection`, index part): the matrices of `get_sparse_operator`
+index basis states big-endian; the basis state with matrix index `i` is the Spec mask
+`maskOfIndex n i` (bit reversal).  `jw_number_indices(k, n)` lists exactly the matrix indices
+whose basis state is an eigenstate of the number operator with eigenvalue `k`, so
+`M[ix_(I, I)]` is the compression of `M` to that eigenspace, in list order. -/
+theorem number_indices_matrix_sector (tol : Rat) (n k : Nat) (htol : GQ.isSmall tol 1 = false) (i : Nat)
+    (hi : i < 2 ^ n) :
+    i ∈ jwNumberIndices k n ↔
+      melF (numberOperator tol n none 1) (maskOfIndex n i) (maskOfIndex n i) = natMul k 1 := by
+  rw [number_operator_diag tol n 1 htol, if_pos rfl, mem_numberIndices, popcount_maskOfIndex]
+  constructor
+  · rintro ⟨_, h⟩; rw [h]
+  · intro h
+    refine ⟨hi, ?_⟩
+    have := congrArg GQ.re h
+    simp only [natMul, GQ.one_re, Rat.mul_one] at this
+    exact_mod_cast this
+
+/-! ## jw_sz_indices
 
 `occAt n I k` is the occupation of mode `k` read from the big-endian matrix index `I`
 (bit `n - 1 - k`); `MapsOK n sites up down`: the index maps go into the register, are injective
@@ -85,6 +103,33 @@ theorem sz_indices_spec_fixed (sz : Rat) (n ne : Nat) (up down : Nat → Nat) (l
           Int.not_lt] at hcond
         refine ⟨(((ne : Int) + (2 * sz).num) / 2).toNat, ne - (((ne : Int) + (2 * sz).num) / 2).toNat,
           by omega, by omega, by simpa using hden, nodup_szPairs_comb hm _ _, fun I => mem_szPairs_comb hm _ _ I⟩
+
+/-- `jw_sz_indices(sz, n, None, up_index, down_index)` (particle number not fixed), when it
+returns, enumerates each exactly once the indices `I < 2^n` occupying only up / down modes whose
+number of majority-spin particles exceeds the number of minority-spin particles by `|2 sz|`
+(majority = down for `sz < 0`, up otherwise) — i.e. all basis states of that `S_z`. -/
+theorem sz_indices_spec_free (sz : Rat) (n : Nat) (up down : Nat → Nat) (l : List Nat)
+    (h : jwSzIndices sz n none up down = .ok l) (hm : MapsOK n (n / 2) up down) :
+    let more := if (2 * sz).num < 0 then down else up
+    let less := if (2 * sz).num < 0 then up else down
+    (2 * sz).den = 1 ∧ l.Nodup ∧ ∀ I, I ∈ l ↔
+      I < 2 ^ n ∧
+      (∀ k, k < n → occAt n I k = true → ∃ s, s < n / 2 ∧ (k = more s ∨ k = less s)) ∧
+      ((List.range (n / 2)).filter fun s => occAt n I (more s)).length
+        = ((List.range (n / 2)).filter fun s => occAt n I (less s)).length + (2 * sz).num.natAbs := by
+  unfold jwSzIndices at h
+  split at h
+  · cases h
+  · split at h
+    · cases h
+    · next hden =>
+      simp only [Except.ok.injEq] at h
+      subst h
+      by_cases hneg : (2 * sz).num < 0
+      · simp only [hneg, if_true]
+        exact ⟨by simpa using hden, sz_free_branch hm.swap _⟩
+      · simp only [hneg, if_false]
+        exact ⟨by simpa using hden, sz_free_branch hm _⟩
 
 /-- the default maps `up_index(i) = 2 i`, `down_index(i) = 2 i + 1` are admissible on `2 · sites`
 qubits and cover every mode -/
